@@ -31,8 +31,9 @@ class Return(Exception):
 
 
 class Ev:
-    def __init__(self, body, hook=None, max_steps=4000):
+    def __init__(self, body, hook=None, max_steps=4000, distinct=False):
         self.body = body
+        self.distinct = distinct  # differently named opaque symbols denote different values
         self.hook = hook or (lambda callee, recv, args, node: None)
         self.steps = 0
         self.max_steps = max_steps
@@ -212,7 +213,7 @@ class Ev:
             if a == b:
                 return T if op == "Eq" else F
             # distinct constructors are definitely different; distinct opaque symbols are unknown
-            if definitely_different(a, b):
+            if definitely_different(a, b) or (self.distinct and is_ground(a) and is_ground(b)):
                 return F if op == "Eq" else T
             return UNK
         return UNK
@@ -346,6 +347,15 @@ def contains_unknown(v):
     if isinstance(v, tuple):
         return any(contains_unknown(x) for x in v if isinstance(x, tuple))
     return False
+
+
+def is_ground(v):
+    """Built only from constructors and opaque symbols (no unknown, no closure)."""
+    if not isinstance(v, tuple):
+        return True
+    if v == UNK or v[0] == "closure":
+        return False
+    return all(is_ground(x) for x in v[1:] if isinstance(x, tuple))
 
 
 def definitely_different(a, b):
